@@ -96,24 +96,24 @@ def check_tree(ctx, c):
         ctx.violation('not-pure', {'bytes': b1.decode('utf-8', 'replace')}, 'to_ical changed the tree')
     if not balanced(b1) or not balanced(u1):
         ctx.violation('unbalanced', {'bytes': b1.decode('utf-8', 'replace')}, 'BEGIN/END not balanced')
-    # sorted=False: properties appear in insertion order, repeated values in their order
-    want = []
-    for k, v in c.items():
-        want += [k] * (len(v) if isinstance(v, list) else 1)
+    # sorted=False: at every depth properties appear in insertion order (repeated values in their order),
+    # then the subcomponents in their order
+    def expected(comp):
+        out = ['BEGIN']
+        for k, v in comp.items():
+            out += [k] * (len(v) if isinstance(v, list) else 1)
+        for sub in comp.subcomponents:
+            out += expected(sub)
+        return out + ['END']
+    want = expected(c)
     got = []
-    depth = 0
     for ln in u1.decode('utf-8', 'replace').replace('\r\n ', '').replace('\r\n\t', '').split('\r\n'):
-        if not ln:
-            continue
-        head = ln.split(':', 1)[0].split(';', 1)[0].upper()
-        if head == 'BEGIN':
-            depth += 1
-        elif head == 'END':
-            depth -= 1
-        elif depth == 1:
-            got.append(head)
-    if got != want:
-        ctx.violation('unsorted-order', {'bytes': u1.decode('utf-8', 'replace')}, f'property order {got} != insertion order {want}')
+        if ln:
+            got.append(ln.split(':', 1)[0].split(';', 1)[0].upper())
+    if got != want and not any(k in ('BEGIN', 'END') for w in c.walk() for k in w.keys()):
+        i = next((j for j in range(min(len(got), len(want))) if got[j] != want[j]), min(len(got), len(want)))
+        ctx.violation('unsorted-order', {'bytes': u1.decode('utf-8', 'replace')},
+                      f'with sorted=False the line names differ from insertion order at line {i}: {got[i:i + 4]} vs {want[i:i + 4]}')
 
 
 def check_permutations(ctx, rng):
